@@ -215,6 +215,28 @@ CLAIMED = {
         technique='abstract interpretation into graph-algebra summaries and '
                   'fair rewrite templates + bounded validity of the '
                   'extracted terms; alphabet typestate'),
+    'C18': dict(
+        partial=True,
+        text='The expression parser of the OBDD module is interpreted '
+             'abstractly per function: every path returns an OBDD-valued '
+             'expression or raises SyntaxError (no fall-through None); '
+             'and/&, or/|, not/~ map to the same operation; what goes into '
+             'Ordering([...]) and into the variable slot of nodes is str by '
+             'type flow from the ast field types; the node printer\'s '
+             'templates (extracted from __str__ for every shape of '
+             'children, including its conditional parenthesisation) use '
+             'only tokens of the parser\'s case table and every embedded '
+             'child keeps its meaning when the composed template text is '
+             'read by Python\'s grammar. Three genuine defects found and '
+             'repaired (fix: commits).',
+        ref='3-C18',
+        note='trusted: ast field types (Name.id, arg.arg: str; id(): int); '
+             'ast.parse is the parser the library itself uses and is applied '
+             'to template text, never to repository output; equality of the '
+             'two notations as functions is C16/C17 matter, not decided',
+        technique='path-sensitive dispatch-totality analysis, type flow, '
+                  'printer-template extraction + precedence check against '
+                  'the host grammar'),
     'C19': dict(
         partial=True,
         text='Alias summaries show that the object returned by each '
